@@ -268,7 +268,10 @@ class Runner:
                 if ">" in k or k in ("sort-in-apply", "sort-in-for-each", "rtf-variable", "apply-with-param", "import", "include"):
                     ctx.count("feature:" + k, 1)
             for f in c["flags"]:
-                ctx.count("recovered:" + f)
+                if f != "#stats":
+                    ctx.count("recovered:" + f)
+            for f in c["flags"].get("#stats", {}):
+                ctx.count("executed:" + f)
             o = res.get(c["id"], ("crash",))
             if o[0] == "lost":
                 ctx.count("library:not-re-run-after-crash")
@@ -302,7 +305,13 @@ class Runner:
                     self.seen.add(h)
             # ---- correspondences (model vs library) ----
             m = mres.get(c["id"])
-            if m is None or got is None or isinstance(got, tuple) and got[:1] == ("unparsable",):
+            if m is None or got is None:
+                continue
+            if got[:1] == ("unparsable",):
+                # ill-formed output where the model predicts a tree
+                if not set(known) - {"K-C01-3"}:
+                    (self.corr_vs if c["kind"] == "vars" else self.corr_ev).append(
+                        {"id": c["id"], "model": m[:200], "library": "ill-formed output: %s" % (got[1],), "case": c})
                 continue
             if c["kind"] == "vars":
                 f = m.split()
